@@ -48,6 +48,19 @@ theorem pgQuote_shape_independent (pre s s' post : Str) (hpre : Clean pre) (hs :
   rw [lit_in_context pre s post hpre hs hpost, lit_in_context pre s' post hpre hs' hpost]
   simp [shape_append, shape_str_cons]
 
+/-- `pgQuote` relies on `standard_conforming_strings = on` (the server default since 9.1; DAWGS neither sets nor
+checks it — trusted base). Under `off` a backslash escapes the closing quote: the value `\` swallows the SQL that
+follows, so the single-token statement is false there. -/
+theorem pgQuote_needs_scs_on :
+    ¬ ∀ (s r : Str), NUL ∉ s → contQuote r = false → (lexOff (pgQuote s ++ r)).length = 1 + (lexOff r).length := by
+  intro h
+  have := h ['\\'] " and x = 1".toList (by decide) (by decide)
+  revert this; decide
+
+/-- what the server sees under `standard_conforming_strings = off` for the value `\` in a WHERE clause -/
+example : lexOff ("name = ".toList ++ pgQuote ['\\'] ++ " and x = 'y'".toList) =
+    [.word "name".toList, .op ['='], .estr "\\' and x = ".toList, .word ['y'], .err "unterminated quoted string"] := by decide
+
 /-! ## 2. Cypher string literals -/
 
 /-- `NewStringLiteral` followed by `decodeCypherStringLiteral` is the identity, for all strings -/
@@ -316,6 +329,7 @@ example : Clean "select ((s0.n0).properties -> 'name') as ".toList := by decide
 example : contQuote "))) select s0.n0 as n from s0;".toList = false := by decide
 example : contQuote ", 'z']::text[]".toList = false := by decide
 example : identFollow " from s0;".toList = true := by decide
+example : identFollow ", x".toList = true ∧ identFollow ")".toList = true ∧ identFollow ";".toList = true ∧ identFollow ".id".toList = true := by decide
 example : identSafe "zq_benign1".toList = true := by decide
 example : identSafe "select".toList = false := by decide
 -- the continuation guard is needed: a newline between two constants merges them (SQL standard)
@@ -326,6 +340,10 @@ example : lex ("-- match (n) where n.name = 'x\rdelete from node; --' return n\n
     [.word "delete".toList, .word "from".toList, .word "node".toList, .punct ';', .word "select".toList, .num ['1'], .punct ';'] := by decide
 example : lex ("-- match (n) where n.name = 'x\n-- delete from node; --' return n\nselect 1;".toList) =
     [.word "select".toList, .num ['1'], .punct ';'] := by decide
+-- the other quoting forms of scan.l are token classes of their own and never arise from `pgQuote` in a clean context
+example : lex "U&'d\\0061t' u&\"a\"\"b\" E'a\\'b' $t$x'$t$ x'1f' /* a /* b */ c */ 1".toList =
+    [.ustr "d\\0061t".toList, .uident "a\"b".toList, .estr "a\\'b".toList, .dollar ['t'] "x'".toList, .bstr "1f".toList, .num ['1']] := by decide
+example : lex "u & 'a' u&x".toList = [.word ['u'], .op ['&'], .str ['a'], .word ['u'], .op ['&'], .word ['x']] := by decide
 -- the NUL guard is needed: the server's view of the text ends at the NUL
 example : lex (pgQuote ['a', NUL, 'b'] ++ " x".toList) = [.err "unterminated quoted string", .nul] := by decide
 -- decoder: accepted and rejected tokens
